@@ -21,6 +21,19 @@ let handle line =
   | "CC" :: order :: cap :: toks ->
       let blocks = count_corpus (nat_of_int (int_of_string ("0x" ^ order))) (nat_of_int (int_of_string ("0x" ^ cap))) (sentences toks) in
       String.concat " | " (List.map show_block blocks)
+  | "AC" :: thr :: pw :: toks ->
+      (* AC <threshold> <pruned word ids, comma separated, or -> rec rec / rec ...   -> the highest-order blocks as they leave CollapseStream *)
+      let pws = if pw = "-" then [] else List.map n_of_hex (String.split_on_char ',' pw) in
+      let prune_word w = List.mem w pws in
+      let parse t = match String.split_on_char ':' t with
+        | [k; c] -> { e_words = List.map n_of_hex (String.split_on_char '.' k); e_count = n_of_hex c; e_marked = false }
+        | _ -> failwith "rec" in
+      let rec blocks cur acc = function
+        | [] -> List.rev (List.rev cur :: acc)
+        | "/" :: r -> blocks [] (List.rev cur :: acc) r
+        | t :: r -> blocks (parse t :: cur) acc r in
+      let show e = String.concat "." (List.map hex_of_n e.e_words) ^ ":" ^ hex_of_n e.e_count ^ (if e.e_marked then "*" else "") in
+      String.concat " | " (List.map (fun b -> String.concat " " (List.map show (collapse_block (n_of_hex thr) prune_word b))) (blocks [] [] toks))
   | _ -> "?"
 
 let () = each_line handle
